@@ -110,8 +110,10 @@ class ChainNode(Entity):
         self.prev_node: ChainNode | None = None
         self.head_node: ChainNode | None = None
 
-        # CRAQ: track keys with uncommitted writes
+        # CRAQ: track keys with uncommitted writes, and for each of them the
+        # newest uncommitted version (sequence number) applied here
         self._dirty_keys: set[str] = set()
+        self._dirty_seq: dict[str, int] = {}
 
         # Pending write futures (HEAD: seq -> SimFuture)
         self._pending_writes: dict[int, SimFuture] = {}
@@ -212,7 +214,7 @@ class ChainNode(Entity):
 
         # Mark dirty for CRAQ
         if self._craq_enabled:
-            self._dirty_keys.add(key)
+            self._mark_dirty(key, seq)
 
         if self.next_node is not None:
             # Create ack future
@@ -235,11 +237,11 @@ class ChainNode(Entity):
             # Clean up
             self._pending_writes.pop(seq, None)
             if self._craq_enabled:
-                self._dirty_keys.discard(key)
+                self._mark_clean(key, seq)
         else:
             # Single-node chain (HEAD is also TAIL)
             if self._craq_enabled:
-                self._dirty_keys.discard(key)
+                self._mark_clean(key, seq)
 
         if reply_future is not None:
             reply_future.resolve({"status": "ok", "seq": seq})
@@ -268,7 +270,7 @@ class ChainNode(Entity):
             yield from self._store.put(key, value)
 
         if self._craq_enabled:
-            self._dirty_keys.add(key)
+            self._mark_dirty(key, seq)
 
         if self._role == ChainNodeRole.TAIL:
             # Send ack back to head
@@ -285,7 +287,7 @@ class ChainNode(Entity):
 
             # CRAQ: key is now clean, notify chain
             if self._craq_enabled:
-                self._dirty_keys.discard(key)
+                self._mark_clean(key, seq)
                 # Notify upstream nodes that key is committed
                 events = self._build_commit_notifications(key, seq)
                 if events:
@@ -318,7 +320,23 @@ class ChainNode(Entity):
         metadata = event.context.get("metadata", {})
         key = metadata.get("key")
         if key and self._craq_enabled:
+            self._mark_clean(key, metadata.get("seq", 0))
+
+    def _mark_dirty(self, key: str, seq: int) -> None:
+        """CRAQ: version ``seq`` of ``key`` was applied here and is not committed yet."""
+        self._dirty_keys.add(key)
+        self._dirty_seq[key] = max(seq, self._dirty_seq.get(key, 0))
+
+    def _mark_clean(self, key: str, seq: int) -> None:
+        """CRAQ: version ``seq`` of ``key`` is committed at the tail.
+
+        The key only becomes clean when the committed version is the newest
+        one applied here; the commit of an older version must not hide a
+        newer write that is still travelling down the chain.
+        """
+        if seq >= self._dirty_seq.get(key, 0):
             self._dirty_keys.discard(key)
+            self._dirty_seq.pop(key, None)
 
     def _handle_read(
         self,
